@@ -579,6 +579,11 @@ def part_c(ck):
                 if not c["linear"] or c["memcpy"]:
                     ck.count("C_order_skipped_nonlinear_or_memcpy")
                     continue
+                if c.get("up_zero"):
+                    # transpose conv fused with a slice: upscaling = ofm_h // (unsliced) ifm_h = 0 as a numpy int, whose % and // by zero
+                    # return 0 instead of raising; outside the model's domain (the stripes themselves are judged by the Spec above)
+                    ck.count("C_order_skipped_upscaling_factor_zero")
+                    continue
                 corr.append("cascade " + " ".join(c["descs"]))
                 corr_real.append("ok " + ";".join(c["real"]))
                 corr_owner.append(("cascade", o, si, ci))
